@@ -178,3 +178,66 @@ add("C23", "exploration", ["dbh"], dbh("c23", ["--n", "9", "--workers", "3"], ["
     "Evidence shows the numbers of locked and fallback-handle file reads observed.",
     "Interleavings are those the OS scheduler produces on 16 cores with the widened window; a specific interleaving cannot be forced.",
     "DESIGN.md §6 C23")
+
+
+RAFTH = "{target}/debug/rafth"
+
+
+def rafth(engine, quick=None, thorough=None):
+    def steps(tier):
+        extra = (thorough if tier == "thorough" else quick) or []
+        return [{"cmd": [RAFTH, engine] + extra}]
+    return steps
+
+
+RAFT_NOTE = ("raft.rs is the real source, copied at build time with `use std::time::Instant` replaced by a virtual clock and a read-only probe impl "
+             "appended (the build fails, i.e. the check is inconclusive, if that line is not found). Transport and log storage are simulated: the "
+             "storage is an in-memory mirror of ClusterStorage/ClusterLog (truncate-uncommitted-on-append, commit-marks-uncommitted-up-to-index, "
+             "logs_since by stored count). Random and priority-driven schedules, not exhaustive at any bound.")
+for pid, what in [
+    ("C27", "no two nodes are ever observed in Leader state with the same term (monitor after every action; the witness names which voter granted which votes)"),
+    ("C28", "no two nodes commit different entries at one index, a committed entry is never removed or replaced on a node, commit indexes never decrease"),
+    ("C29", "every node that enters Leader state holds, at the same index, every entry that an earlier leader committed while being leader"),
+]:
+    add(pid, "exploration", ["rafth"], rafth(pid.lower(), ["--n", "320"], ["--n", "12000", "--runs", "40"]),
+        "invariant monitors after every scheduler action of a simulator driving the real raft.rs under a virtual clock and adversarial / transport-faithful networks",
+        "Seeded runs of up to 400 actions (tick incl. clock jumps, deliver, drop, duplicate, isolate, heal, client append at a leader) on 3- and 5-node "
+        "clusters, two network models x four schedulers; monitor: " + what + ".",
+        RAFT_NOTE, "DESIGN.md §6 " + pid + ", §5.10", replay_bin=RAFTH, engine="rafth")
+add("C30", "exploration", ["rafth"], rafth("c30", ["--n", "1200"], ["--n", "40000"]),
+    "bounded-progress monitor in virtual time on fault-free schedules of the raft simulator",
+    "Liveness restated as bounded progress: on fault-free schedules (bounded random delays, arbitrary order, no loss) from the initial state and after "
+    "faulty prefixes, a single stable leader must exist within H = 20 x (term_timeout + N x election_factor) virtual ms and entries appended at it must "
+    "be committed on all nodes within H. An unbounded 'eventually' is out of reach for runtime monitoring; H is an order of magnitude above what the timers need.",
+    RAFT_NOTE, "DESIGN.md §6 C30, §5.10", replay_bin=RAFTH, engine="rafth")
+
+
+SRVH = "{target}/srvh/debug/srvh"
+
+
+def c28_steps(tier):
+    th = tier == "thorough"
+    return [
+        {"cmd": [RAFTH, "c28", "--n", "12000" if th else "320"] + (["--runs", "40"] if th else [])},
+        # validation of the simulator's storage mirror against the real ClusterStorage
+        {"cmd": [SRVH, "simlog", "--n", "200" if th else "24", "--workers", "8"]},
+    ]
+
+
+CHECKS["C28"]["build"] = ["rafth", "srvh"]
+CHECKS["C28"]["steps"] = c28_steps
+
+
+def c31_steps(tier):
+    th = tier == "thorough"
+    return [{"cmd": [SRVH, "c31", "--n", "300" if th else "30", "--workers", "4"] + (["--logs", "100"] if th else [])}]
+
+
+add("C31", "exploration", ["srvh"], c31_steps,
+    "state-based ordering / exactly-once oracle on the real ClusterStorage compiled into the harness, multi-thread runtime",
+    "The server's unmodified sources are compiled together with a driver (generated crate), giving access to the real ServerDb, ClusterLog, DbPool and "
+    "ClusterStorage: uniquely tagged, order-sensitive actions are appended and committed at once, one by one, or replayed by a restart, on runtimes with "
+    "2-16 workers; the ids the databases assign record the execution order: it must be the log order, each action exactly once, and the state must equal "
+    "that of a sequential reference instance.",
+    "Single node storage path (the place where committed entries are executed); the HTTP layer and inter-node transport are not part of this check.",
+    "DESIGN.md §6 C31, §5.9", replay_bin=SRVH, engine="srvh")
